@@ -477,6 +477,21 @@ func genMetric(r *rand.Rand, mode string) metricIn {
 				f.Lits[i] = i > 0 && (!f.Lits[i-1] || sep) && r.Intn(3) != 0
 			}
 		}
+		if r.Intn(12) == 0 {
+			// (v * c1) % c2, (v + c1) * c2 ...: a parenthesised scalar operation followed by another of the same or a lower level -
+			// the constants must not be folded across the parenthesis
+			f.Operands = []Ints{[][]int{{3, 1}, {5, 1}, {2, 1}, {7, 1}}[r.Intn(4)], [][]int{{6, 1}, {7, 1}, {5, 1}, {2, 1}}[r.Intn(4)], [][]int{{4, 1}, {3, 1}, {2, 1}, {5, 1}}[r.Intn(4)]}
+			f.Ops = []string{pick(r, []string{"mul", "add", "sub", "div"}), pick(r, []string{"mod", "mul", "div", "sub", "pow", "mod"})}
+			f.Lits = []bool{false, true, true}
+			f.Open, f.Close, f.Dbl = 1, 2, false
+			if r.Intn(3) == 0 {
+				// ... inside a longer chain
+				f.Operands = append([]Ints{{1, 1}}, f.Operands...)
+				f.Ops = append([]string{pick(r, []string{"add", "sub", "mul"})}, f.Ops...)
+				f.Lits = append([]bool{false}, f.Lits...)
+				f.Open, f.Close = 2, 3
+			}
+		}
 		in.Flat = f
 		in.Recs = []MemRec{}
 		in.Expr = *litExpr([]int{0, 1})
